@@ -504,6 +504,19 @@ func (b *Builder) AddToFile(f *jen.File, n *Node) {
 			return
 		}
 	}
+	if n != nil && n.Kind == KStmt && n.Ref == 0 && len(n.Calls) >= 2 && !NoCloneForm {
+		// one statement in six or so is handed to the File while it is still incomplete and finished through
+		// the variable the caller kept: the File holds the statement, not a copy of what it was then
+		if j := cloneAt(n.Calls[1:]); j >= 0 && j%2 == 0 {
+			st := make(jen.Statement, 0, 16)
+			s := &st
+			k := 1 + j%(len(n.Calls)-1)
+			b.applyUpTo(s, n.Calls, 0, k)
+			f.Add(s)
+			b.applyUpTo(s, n.Calls, k, len(n.Calls))
+			return
+		}
+	}
 	f.Add(b.Code(n))
 }
 
